@@ -12,6 +12,11 @@
 int
 main(int argc, String *argv)
 {
+	int	rc;
+
 	osFixCmdLine(&argc, &argv);
-	return compCmd(argc, argv);
+	rc = compCmd(argc, argv);
+
+	/* Only the low 8 bits reach the caller: 256 errors must not read as success. */
+	return rc > 255 ? 255 : rc;
 }
